@@ -329,8 +329,12 @@ class Stream:
     oracle(case, impl_outcome) -> None | reason                     (implementation-level property oracle)
     nontrivial(case, impl_outcome, model_outcome) -> bool"""
 
-    def __init__(self, name, cases, relation, oracle=None, nontrivial=None, env=None, only_auth=False, model=True):
+    def __init__(self, name, cases, relation, oracle=None, nontrivial=None, env=None, only_auth=False, model=True, mismatch_kind="correspondence"):
         self.name, self.cases, self.relation, self.oracle = name, cases, relation, oracle
+        # "correspondence": implementation vs the proven model (a failing input while the model is intact);
+        # "tie": implementation vs the interpreted SOURCE of the same tree -- a difference means the translator / interpreter does not
+        # render this source faithfully, i.e. the tie is broken; it is never by itself an input on which the property fails
+        self.mismatch_kind = mismatch_kind
         self.nontrivial = nontrivial or (lambda c, i, m: True)
         self.env, self.only_auth, self.use_model = env, only_auth, model
 
@@ -363,7 +367,7 @@ def run_stream(ctx, st, max_report=5):
         if reason:
             mism += 1
             if mism <= max_report:
-                ctx.violations.append(("correspondence", {"stream": st.name, "case": c["w"], "meta": c.get("meta"),
+                ctx.violations.append((st.mismatch_kind, {"stream": st.name, "case": c["w"], "meta": c.get("meta"),
                                                           "impl": io[:2000], "model": mo[:2000], "reason": reason}))
         if st.oracle:
             r = st.oracle(c, io)
